@@ -94,6 +94,7 @@ Qed.
 Definition lp_tail (check_utf8 : bool) (l : N) (t : bytes) : outcome (bytes * bytes) :=
   if len t <? l then dfail
   else if check_utf8 && negb (utf8_ok (take l t)) then dfail
+  else if check_utf8 && str_contains_nul (take l t) then dfail
   else Ok (take l t, drop l t).
 
 Lemma decode_length_prefixed_string_spec b :
@@ -107,7 +108,7 @@ Proof.
   cbn [be16_of obind].
   destruct (len t <? x * 256 + y) eqn:E; [reflexivity|].
   replace (x * 256 + y <=? len t) with true by lia. cbn [obind andb].
-  destruct (utf8_ok _); reflexivity.
+  destruct (utf8_ok _); [|reflexivity]. cbn [negb]. destruct (str_contains_nul _); reflexivity.
 Qed.
 
 Lemma decode_optional_length_prefixed_string_spec b v :
@@ -126,7 +127,7 @@ Proof.
   cbn [be16_of obind].
   destruct (len t <? x * 256 + y) eqn:E; [reflexivity|].
   replace (x * 256 + y <=? len t) with true by lia. cbn [obind andb].
-  destruct (utf8_ok _); reflexivity.
+  destruct (utf8_ok _); [|reflexivity]. cbn [negb]. destruct (str_contains_nul _); reflexivity.
 Qed.
 
 Lemma decode_optional_length_prefixed_bytes_spec b v :
@@ -160,7 +161,7 @@ Proof. destruct o as [[? ?]| |]; cbn; auto. contradiction. Qed.
 
 Lemma lp_tail_good c l t : good (lp_tail c l t) t.
 Proof.
-  unfold lp_tail. destruct (len t <? l); [exact I|]. destruct (c && _); [exact I|]. cbn. apply drop_length_le.
+  unfold lp_tail. destruct (len t <? l); [exact I|]. destruct (c && negb _); [exact I|]. destruct (c && _); [exact I|]. cbn. apply drop_length_le.
 Qed.
 
 Lemma good_weaken {A} (o : outcome (A * bytes)) b b' : good o b -> (length b <= length b')%nat -> good o b'.
